@@ -109,13 +109,27 @@ inductive Ctx where
   | var | const
   deriving DecidableEq, Repr
 
-/-- the declared type differs from the type the Go specification gives the (typed) initialiser: Go rejects the
-    declaration; the interpreter copies the declared type onto an operator at the top of the initialiser before
-    its operands are looked at (F03-18) -/
+/-- the declared type `t` is copied onto the operator at the top of the initialiser and from there down the chain of
+    operators, unary operators and parentheses (not into calls, not below comparisons); the interpreter goes wrong
+    where such an operator has an operand that is, for the specification, a typed constant of another type: the node
+    keeps `t`, the result is computed in `t`, and the mismatch that Go reports is never noticed (F03-18). Decidable on
+    the input: only the specification is consulted. -/
+def chainMismatch (iota : Nat) (t : BT) : CExpr → Bool
+  | .par x => chainMismatch iota t x
+  | .un a x => if a == .not then false else chainMismatch iota t x
+  | .bin a x y =>
+    if isCmpAct a || isLogicAct a then false
+    else
+      let typedOther (z : CExpr) : Bool := match goTy iota z with
+        | some (.t b) => b != t
+        | _ => false
+      typedOther x || typedOther y || chainMismatch iota t x || chainMismatch iota t y
+  | _ => false
+
 def declMismatch (iota : Nat) (declT : Option BT) (e : CExpr) : Bool :=
-  match declT, Spec.evalGo iota e with
-  | some t, .ok gv => (match gv.ty with | .t b => b != t | .u _ => false)
-  | _, _ => false
+  match declT with
+  | some t => chainMismatch iota t e
+  | none => false
 
 /-- class of one declaration (`"-"` = the models agree) -/
 def classifyDecl (F : Facts) (ctx : Ctx) (iota : Nat) (declT : Option BT) (e : CExpr) (y : Out) (g : Res (CV × BT)) : String :=
